@@ -221,7 +221,7 @@ partial def genGTree (cfg : NestCfg) (n : Nat) : GS GTree := do
     let syms ← distinctSyms k Sym.simples
     let mut parts : List Part := []
     for sym in syms do
-      let d ← liftG (range 0 1)
+      let d ← liftG (range 0 (min 1 cfg.exprDepth))
       let e ← decorateLeaf (← genExpr { shared := false, chains := false } d)
       parts := .ann { sym := sym } true e :: parts
     -- now and then a nested component closes the group
